@@ -255,7 +255,7 @@ CHECK = {
     "assumptions": ["theorems are over the reals; binary64 behaviour is observed on generated inputs", "std::pow(x,2) is modelled as x*x"],
     "run_timeout": 1200,
     "manifest": {
-        "text": "SYNTACTIC TIE: computeIsometricLatitude, computeGrandeNormal, toLambert, the two EarthEllipsoid radii, and the iterative inverse (computeLatitude's for(;;) loop as a fuelled fix, toWGS84) and both computeProjectionParameters overloads are re-translated from the clang AST of the current source into Gallina terms on every run (translate/srcfuns.py -> coq/gen/SrcFunsC03.v) and proved equal, over the reals, to the model functions the theorems are about. SYNTACTIC TIE OF THE CONSTRUCTORS: the four constructors of LambertConverter are re-translated on every run (translate/tr_C03_ctor.py, on the library translate/imptrans.py -> coq/gen/SrcLambertCtor.v) into the tuple of the six data members they leave; the class must have exactly these members and constructors; coq/SrcTieC03Ctor.v proves, for every numeric dictionary, that a converter built from secant / tangent parameters and an ellipsoid holds computeProjectionParameters(parameters, ellipsoid) and the ellipsoid's first eccentricity e (not e2) — C03_source_tie_constructors, _plain_constructors — and, over the reals, that the source's toLambert on the members the source's constructors store is the model's toLambert (C03_source_tie_constructed_converter). Coq theorems over the reals about a model of LambertConverter: derivative of the isometric latitude (Coquelicot), "
+        "text": "SYNTACTIC TIE: computeIsometricLatitude, computeGrandeNormal, toLambert, the two EarthEllipsoid radii, and the iterative inverse (computeLatitude's for(;;) loop as a fuelled fix, toWGS84) and both computeProjectionParameters overloads are re-translated from the clang AST of the current source into Gallina terms on every run (translate/srcfuns.py -> coq/gen/SrcFunsC03.v) and proved equal, over the reals, to the model functions the theorems are about. SYNTACTIC TIE OF THE CONSTRUCTORS: the four constructors of LambertConverter are re-translated on every run (translate/tr_C03_ctor.py, on the library translate/imptrans.py -> coq/gen/SrcLambertCtor.v) into the tuple of the six data members they leave; the class must have exactly these members and constructors; coq/SrcTieC03Ctor.v proves, for every numeric dictionary, that a converter built from secant / tangent parameters and an ellipsoid holds computeProjectionParameters(parameters, ellipsoid) and the ellipsoid's first eccentricity e (not e2) — C03_source_tie_constructors, _plain_constructors — and, over the reals, that the source's toLambert on the members the source's constructors store is the model's toLambert (C03_source_tie_constructed_converter, and the same for the inverse toWGS84, _inverse). Coq theorems over the reals about a model of LambertConverter: derivative of the isometric latitude (Coquelicot), "
                 "the partial derivatives of toLambert are orthogonal and give equal scale along meridian and parallel (conformal), "
                 "scale 1 on both standard parallels / k0 on the tangent parallel, origin -> false origin, central meridian -> x = x0, "
                 "toWGS84 recovers isometric latitude and longitude exactly on cones of either hemisphere, the true latitude is a "
